@@ -19,7 +19,9 @@
 (* ("d" the dataclass default, "n" a non-default value, "c" a complex       *)
 (* value, "N" None); arrays and polygons are integers that the binding      *)
 (* assigns by content (equal integers <=> bit-identical content, 0 = not    *)
-(* there / None).  Save produces the FILE (what an independent reader sees  *)
+(* there / None).  A history uses ONE path: save X, load, remove the file,   *)
+(* save Y (same shape, other content) under the same path, load: the second *)
+(* load must give Y.  Save produces the FILE (what an independent reader sees  *)
 (* in the HDF5 file), Load produces the loaded record from the file alone.  *)
 (* Mechanism switches M* select how the pinned code or a mutant does it;    *)
 (* the properties do not mention them.                                      *)
@@ -35,10 +37,16 @@ CONSTANTS
   MLayerCond,     \* TRUE: Layer.to_hdf5 stores the conductivity (when there is one)
   MRestoreDual,   \* TRUE: a mesh restored from stored arrays takes the stored dual/Voronoi arrays as well
   MPolyAsHeld,    \* TRUE: Polygon.to_hdf5 stores the points as the object holds them (closed, counter-clockwise)
-  MDynAlways      \* TRUE: a solution without a file writes its per-step dynamics whether or not there are probe points
+  MDynAlways,     \* TRUE: a solution without a file writes its per-step dynamics whether or not there are probe points
+  MMemoByPath     \* TRUE (mutant): the reader memoises what it loaded by path and serves it again (FALSE: cache-free reader)
 
-VARIABLES kind, shape, saved, file, loaded, pc
-vars == <<kind, shape, saved, file, loaded, pc>>
+VARIABLES kind, shape, saved,
+          file,     \* the file system: what the ONE path used by this history currently holds (Nothing = no file)
+          loaded, pc,
+          memo,     \* what a memoising reader remembers for the path (first thing it loaded); unused by a cache-free reader
+          gen       \* generation: 1 = first object saved under the path, 2 = after the file was removed and the
+                    \* path re-used for another object of the same shape (same array shapes, other content)
+vars == <<kind, shape, saved, file, loaded, pc, memo, gen>>
 
 SeqToSet(s) == {s[n] : n \in 1..Len(s)}
 -----------------------------------------------------------------------------
@@ -91,12 +99,13 @@ HasMesh(m) == m # NoMesh
 \* symbolic identities for the model-checking runs (the binding supplies real ones)
 MeshSeq == <<"sites", "elements", "boundary_indices", "areas", "dual_sites", "voronoi_polygons", "centers", "edges",
             "boundary_edge_indices", "directions", "edge_lengths", "dual_edge_lengths">>
-SymMesh == [a \in MeshArrays |-> 50 + (CHOOSE n \in 1..12 : MeshSeq[n] = a)]
-SymDevice(s) == [name |-> 1, length_units |-> 2,
-                 layer |-> [f \in LayerFields |-> IF f = "conductivity" THEN (IF s.cond THEN 47 ELSE 0) ELSE 40],
+SymMeshG(g) == [a \in MeshArrays |-> 1000 * (g - 1) + 50 + (CHOOSE n \in 1..12 : MeshSeq[n] = a)]
+SymMesh == SymMeshG(1)
+SymDevice(s, g) == [name |-> 1, length_units |-> 2,
+                 layer |-> [f \in LayerFields |-> IF f = "conductivity" THEN (IF s.cond THEN 47 ELSE 0) ELSE 40 + g],
                  film |-> 10, holes |-> [n \in 1..s.holes |-> 10 + n], terminals |-> [n \in 1..s.terms |-> 20 + n],
-                 probe_points |-> IF s.probes > 0 THEN 30 + s.probes ELSE 0,
-                 mesh |-> IF s.mesh THEN SymMesh ELSE NoMesh]
+                 probe_points |-> IF s.probes > 0 THEN 30 + s.probes + 100 * g ELSE 0,
+                 mesh |-> IF s.mesh THEN SymMeshG(g) ELSE NoMesh]
 DeviceShapes == [holes : 0..2, terms : {0, 2, 3}, probes : {0, 2, 3}, cond : BOOLEAN, mesh : BOOLEAN, savemesh : BOOLEAN]
 \* the identity of the points the file holds when a polygon is NOT stored as held: some other content
 NotAsHeld(id) == id + 1000
@@ -136,8 +145,9 @@ MeshLoadOf(fl, sv) ==
 \* modes: to_hdf5 to a new path (the output file is copied) | in place | after the output file was deleted |
 \* a solution produced with output_file=None (its temporary file is gone when solve() returns).
 \* probes / screening decide which per-step records exist (mu, theta at the probe points; screening_iterations)
-SolShapes == [mode : {"copy", "inplace", "deleted", "nofile"}, nframes : 1..4, cur : 1..4, probes : BOOLEAN, screening : BOOLEAN]
-SolOK(s) == s.cur <= s.nframes /\ (s.mode = "nofile" => s.cur = s.nframes)    \* solve() returns the last step
+SolShapes == [mode : {"copy", "inplace", "deleted", "nofile", "solved"}, nframes : 1..4, cur : 1..4, probes : BOOLEAN, screening : BOOLEAN]
+\* "solved": the file tdgl.solve itself wrote under output_file.  solve() returns the last step.
+SolOK(s) == s.cur <= s.nframes /\ (s.mode \in {"nofile", "solved"} => s.cur = s.nframes)
 NoFile(s) == s.mode \in {"deleted", "nofile"}
 DynFields == {"dt", "time", "mu", "theta", "screening_iterations"}
 SymDyn(s) == [dt |-> 91, time |-> 92, mu |-> IF s.probes THEN 93 ELSE 0, theta |-> IF s.probes THEN 94 ELSE 0,
@@ -145,19 +155,23 @@ SymDyn(s) == [dt |-> 91, time |-> 92, mu |-> IF s.probes THEN 93 ELSE 0, theta |
 LostDyn == [f \in DynFields |-> 0]
 \* a solution = the data of every recorded step, the per-step dynamics, and what is derived from them:
 \* Solution.times and closest_solve_step at a fixed set of query times
-SymSolution(s) == [frames |-> [n \in 1..s.nframes |-> 100 + n], dyn |-> SymDyn(s), times |-> 96, closest |-> 97]
+\* ... the mesh the solution lives on, and the current densities computed from the current step on that mesh
+SymSolution(s, g) == [frames |-> [n \in 1..s.nframes |-> 1000 * (g - 1) + 100 + n], dyn |-> SymDyn(s), times |-> 96, closest |-> 97,
+                      mesh |-> 98 + 1000 * (g - 1), currents |-> 99 + 1000 * (g - 1)]
 \* without a file to copy only the step held in memory can be written, together with the whole dynamics
-SolFileOf(s, sv) == IF NoFile(s) THEN [frames |-> <<sv.frames[s.cur]>>, dyn |-> IF MDynAlways \/ s.probes THEN sv.dyn ELSE LostDyn]
-                    ELSE [frames |-> sv.frames, dyn |-> sv.dyn]
+SolFileOf(s, sv) == IF NoFile(s) THEN [frames |-> <<sv.frames[s.cur]>>, dyn |-> IF MDynAlways \/ s.probes THEN sv.dyn ELSE LostDyn, mesh |-> sv.mesh]
+                    ELSE [frames |-> sv.frames, dyn |-> sv.dyn, mesh |-> sv.mesh]
 \* times / closest_solve_step are functions of the dynamics (and of save_every, an option)
+\* the current densities are a function of the data of the current step and of the mesh
 SolLoadOf(fl, sv) == [frames |-> fl.frames, dyn |-> fl.dyn,
-                      times |-> IF fl.dyn = sv.dyn THEN sv.times ELSE 0, closest |-> IF fl.dyn = sv.dyn THEN sv.closest ELSE 0]
+                      times |-> IF fl.dyn = sv.dyn THEN sv.times ELSE 0, closest |-> IF fl.dyn = sv.dyn THEN sv.closest ELSE 0,
+                      mesh |-> fl.mesh, currents |-> IF fl.mesh = sv.mesh THEN sv.currents ELSE 0]
 SolExpected(s, sv) == [sv EXCEPT !.frames = IF NoFile(s) THEN <<sv.frames[s.cur]>> ELSE sv.frames]
 
 -----------------------------------------------------------------------------
 Nothing == [none |-> TRUE]
 Init == /\ kind \in Kinds /\ pc = "choose" /\ shape = (IF kind = "options" THEN OptDefault ELSE Nothing)
-        /\ saved = Nothing /\ file = Nothing /\ loaded = Nothing
+        /\ saved = Nothing /\ file = Nothing /\ loaded = Nothing /\ memo = Nothing /\ gen = 1
 
 \* enumeration of the records, one field at a time (fields in declaration order, so every record is reached once)
 Deviate == /\ pc = "choose" /\ kind = "options" /\ Cardinality(Deviating(shape)) < MaxDev
@@ -165,38 +179,46 @@ Deviate == /\ pc = "choose" /\ kind = "options" /\ Cardinality(Deviating(shape))
                 /\ \A g \in Deviating(shape) : Idx(g) < Idx(f)
                 /\ SampledRec([shape EXCEPT ![f] = v])
                 /\ shape' = [shape EXCEPT ![f] = v]
-           /\ UNCHANGED <<kind, saved, file, loaded, pc>>
+           /\ UNCHANGED <<kind, saved, file, loaded, pc, memo, gen>>
 Shape == /\ pc = "choose" /\ kind # "options" /\ shape = Nothing
          /\ shape' \in (CASE kind = "device" -> DeviceShapes [] kind = "mesh" -> MeshShapes
                           [] kind = "solution" -> {s \in SolShapes : SolOK(s)})
-         /\ UNCHANGED <<kind, saved, file, loaded, pc>>
+         /\ UNCHANGED <<kind, saved, file, loaded, pc, memo, gen>>
 \* the object exists (built by the binding; symbolic identities in the model-checking runs)
-SymSaved == CASE kind = "options" -> shape [] kind = "device" -> SymDevice(shape)
-              [] kind = "mesh" -> SymMesh [] kind = "solution" -> SymSolution(shape)
-Materialise(sv) == /\ pc = "choose" /\ shape # Nothing
+SymSaved == CASE kind = "options" -> shape [] kind = "device" -> SymDevice(shape, gen)
+              [] kind = "mesh" -> SymMeshG(gen) [] kind = "solution" -> SymSolution(shape, gen)
+\* (also: after the file was removed, ANOTHER object of the same shape is about to be saved under the same path)
+Materialise(sv) == /\ pc \in {"choose", "removed"} /\ shape # Nothing
                    /\ saved' = sv /\ pc' = "made"
-                   /\ UNCHANGED <<kind, shape, file, loaded>>
+                   /\ UNCHANGED <<kind, shape, file, loaded, memo, gen>>
 Save == /\ pc = "made"
         /\ file' = (CASE kind = "options" -> OptFileOf(saved) [] kind = "device" -> DeviceFileOf(shape, saved)
                       [] kind = "mesh" -> MeshFileOf(shape, saved) [] kind = "solution" -> SolFileOf(shape, saved))
         /\ pc' = "saved"
-        /\ UNCHANGED <<kind, shape, saved, loaded>>
+        /\ UNCHANGED <<kind, shape, saved, loaded, memo, gen>>
+\* a cache-free reader answers from the file alone
+Fresh == CASE kind = "options" -> OptLoadOf(file) [] kind = "device" -> DeviceLoadOf(file)
+           [] kind = "mesh" -> MeshLoadOf(file, saved) [] kind = "solution" -> SolLoadOf(file, saved)
 Load == /\ pc = "saved"
-        /\ loaded' = (CASE kind = "options" -> OptLoadOf(file) [] kind = "device" -> DeviceLoadOf(file)
-                        [] kind = "mesh" -> MeshLoadOf(file, saved) [] kind = "solution" -> SolLoadOf(file, saved))
+        /\ loaded' = IF MMemoByPath /\ memo # Nothing THEN memo ELSE Fresh
+        /\ memo' = IF memo = Nothing THEN Fresh ELSE memo
         /\ pc' = "loaded"
-        /\ UNCHANGED <<kind, shape, saved, file>>
+        /\ UNCHANGED <<kind, shape, saved, file, gen>>
+\* the file is removed (os.remove / Solution.delete_hdf5); the path is free for the next object
+Remove == /\ pc = "loaded" /\ gen = 1 /\ kind # "options"
+          /\ file' = Nothing /\ gen' = 2 /\ pc' = "removed"
+          /\ UNCHANGED <<kind, shape, saved, loaded, memo>>
 
 MMaterialise == Materialise(SymSaved)
-Next == Deviate \/ Shape \/ MMaterialise \/ Save \/ Load
+Next == Deviate \/ Shape \/ MMaterialise \/ Save \/ Load \/ Remove
 Spec == Init /\ [][Next]_vars
 
 -----------------------------------------------------------------------------
 (* PROPERTY clauses                                                         *)
 TypeOK == /\ kind \in {"options", "device", "mesh", "solution"}
-          /\ pc \in {"choose", "made", "saved", "loaded"}
-\* what was loaded is what was saved, field by field (a device saved without its mesh has none afterwards;
-\* a solution whose file was deleted keeps the step it held)
+          /\ pc \in {"choose", "made", "saved", "loaded", "removed"} /\ gen \in {1, 2}
+\* what was loaded is what was saved LAST under the path, field by field (a device saved without its mesh has none
+\* afterwards; a solution whose file was deleted keeps the step it held)
 Expected == CASE kind = "options" -> saved
               [] kind = "device" -> [saved EXCEPT !.mesh = IF shape.savemesh THEN saved.mesh ELSE NoMesh]
               [] kind = "mesh" -> saved
@@ -212,5 +234,5 @@ MeshRestoredEqualsRecomputed == (pc = "loaded" /\ kind = "mesh") =>
                                    /\ loaded.recomputed <=> ~Restorable(file)
 
 \* export of the enumerated records / shapes (materialised by the binding with the real classes)
-Emit == pc = "made" => PrintT(ToJson([kind |-> kind, shape |-> shape]))
+Emit == (pc = "made" /\ gen = 1) => PrintT(ToJson([kind |-> kind, shape |-> shape]))
 =============================================================================
